@@ -312,6 +312,24 @@ Theorem C15_binary64_default_count_complete :
 Proof. exact binary64_default_count_complete. Qed.
 Print Assumptions C15_binary64_default_count_complete.
 
+Theorem C15_binary64_default_count_iter_complete :
+  forall start stop factor j take,
+    let p := mkP ApiIter start stop CNone factor j take in
+    must_raise prim_ops p = false -> PrimFloat.ltb PrimFloat.one factor = true -> take <> O ->
+    (stall_at_start start stop factor = true /\
+     forall fuel draws, run prim_ops p (S fuel) draws = mkObs [] (ERaise ValueError))
+    \/
+    (stall_at_start start stop factor = false /\
+     exists fuel n, forall draws, draws_ok prim_ops draws -> (n <= length draws)%nat ->
+       let o := run prim_ops p fuel draws in
+       values_ok prim_ops p (o_vals o) = true /\
+       ((o_end o = EMore /\ length (o_vals o) = take) \/
+        (o_end o = EStop /\
+         last_is prim_ops stop (if jitter_off prim_ops j then o_vals o
+                                else ideal prim_ops stop factor start (length (o_vals o))) = true))).
+Proof. exact binary64_default_count_iter_complete. Qed.
+Print Assumptions C15_binary64_default_count_iter_complete.
+
 (* ---- soundness of the correspondence verdict ----------------------------------------------------
    For every case the check evaluates: if its [agree] bit is true (the implementation's observation
    is the model's run for the recorded draws in order, or for some assignment of recorded draws to
